@@ -786,10 +786,10 @@ def permute(input, dims, eps=1e-12):
                         core, [core.shape[0]*core.shape[1]*core.shape[2], -1]))
                     if S.is_cuda:
                         r_now = min(
-                            [rank_chop(S.detach().cpu().numpy(), _norm2(S).detach().cpu().numpy()*eps)])
+                            [rank_chop(S.detach().cpu().numpy(), float(eps)*_norm2(S).detach().cpu().numpy())])
                     else:
                         r_now = min(
-                            [rank_chop(S.detach().numpy(), _norm2(S).detach().numpy()*eps)])
+                            [rank_chop(S.detach().numpy(), float(eps)*_norm2(S).detach().numpy())])
 
                     US = U[:, :r_now]@tn.diag(S[:r_now])
                     V = V[:r_now, :]
@@ -818,10 +818,10 @@ def permute(input, dims, eps=1e-12):
                         core, [core.shape[0]*core.shape[1], -1]))
                     if S.is_cuda:
                         r_now = min(
-                            [rank_chop(S.detach().cpu().numpy(), _norm2(S).detach().cpu().numpy()*eps)])
+                            [rank_chop(S.detach().cpu().numpy(), float(eps)*_norm2(S).detach().cpu().numpy())])
                     else:
                         r_now = min(
-                            [rank_chop(S.detach().numpy(), _norm2(S).detach().numpy()*eps)])
+                            [rank_chop(S.detach().numpy(), float(eps)*_norm2(S).detach().numpy())])
 
                     US = U[:, :r_now]@tn.diag(S[:r_now])
                     V = V[:r_now, :]
